@@ -388,7 +388,10 @@ class SymInt(object):
     def __bool__(self): return bool(self != 0)
 
     def __hash__(self):
-        # dict / set membership with a symbolic key: enumerate the key's feasible values (solver-driven fork)
+        # dict / set membership with a symbolic key: enumerate the key's feasible values (solver-driven fork);
+        # wide keys cannot be enumerated: fail fast (inconclusive) instead of forking forever
+        if self.hi - self.lo >= (1 << 16):
+            raise Leak('hash of a symbolic integer with %d-bit range (dict/set keyed by symbolic data)' % (self.hi - self.lo).bit_length())
         return hash(concretize(self))
 
     def __index__(self): return concretize(self)
@@ -1433,6 +1436,13 @@ def sx_in(x, members):
     return x in members
 
 
+def sx_unpack(value, n):
+    t = tuple(value)
+    if len(t) != n:
+        raise ValueError('not enough values to unpack' if len(t) < n else 'too many values to unpack (expected %d)' % n)
+    return t
+
+
 def sx_maybe_pos(v):
     "v > 0, except that a symbolic non-negative v answers True without forking (see loader._bits_init_size)"
     if isinstance(v, SymInt) and v.lo >= 0:
@@ -1451,4 +1461,4 @@ def sx_ite(test, fa, fb):
 SHIMS = dict(isinstance=sx_isinstance, int=sx_int, bytes=sx_bytes, bytearray=sx_bytearray,
              abs=sx_abs, min=sx_min, max=sx_max, sum=sx_sum, divmod=sx_divmod, range=sx_range,
              hex=sx_hex, bin=sx_bin, chr=sx_chr, ord=sx_ord, float=sx_float,
-             __sx_getitem__=sx_getitem, __sx_setitem__=sx_setitem, __sx_join__=sx_join, __sx_ite__=sx_ite, __sx_maybe_pos__=sx_maybe_pos, __sx_in__=sx_in)
+             __sx_getitem__=sx_getitem, __sx_setitem__=sx_setitem, __sx_join__=sx_join, __sx_ite__=sx_ite, __sx_maybe_pos__=sx_maybe_pos, __sx_in__=sx_in, __sx_unpack__=sx_unpack)
